@@ -157,12 +157,14 @@ def compare(status, want, rep, db, fmt, force):
     probs = []
     if status == "error":
         if db is not None:
-            probs.append(("merge_strategy='error' did not abort on a duplicate key", rep, None, "error_strategy_did_not_abort"))
+            probs.append(("merge_strategy='error' did not abort on a duplicate key", rep, None,
+                          "error_strategy_did_not_abort"))
         return probs
     if status == "abort":
         return probs                      # '<key>_n' already taken: outcome not prescribed (the code aborts)
     if db is None:
-        probs.append(("create_db raised (%s) although the strategy prescribes an outcome" % rep, rep, None, "import_raised"))
+        probs.append(("create_db raised (%s) although the strategy prescribes an outcome" % rep, rep, None,
+                      "import_raised"))
         return probs
     got = observe(db, fmt)
     if set(got) != set(want):
@@ -191,8 +193,8 @@ def mk_case(lines, arrivals, cfg, fmt, phase=None):
     """a self-contained case: the lines, the generator's record (arrival) of every line, the configuration of the
     import under test, the format; with "phase" (0/1 per line) the phase-0 lines are imported with create_unique and
     the phase-1 lines arrive through FeatureDB.update with the configuration under test"""
-    case = {"scenario": "create_db" if phase is None else "create_db+update", "input": list(lines), "records": list(arrivals),
-            "parallel": ["records"], "config": cfg.to_json(), "fmt": fmt}
+    case = {"scenario": "create_db" if phase is None else "create_db+update", "input": list(lines),
+            "records": list(arrivals), "parallel": ["records"], "config": cfg.to_json(), "fmt": fmt}
     if phase is not None:
         case["phase"] = list(phase)
         case["parallel"] = ["records", "phase"]
@@ -306,7 +308,8 @@ def run(ctx):
         if not use_update:
             cmds.append(dbside.cmd_create(lines, cfg)); exp.append(rep); tags.append(("create_db", repr(inp)))
         else:
-            cmds.append(dbside.cmd_create(ex["first"], ex["cfg0"])); exp.append(ex["rep0"]); tags.append(("create_db", repr(inp)))
+            cmds.append(dbside.cmd_create(ex["first"], ex["cfg0"])); exp.append(ex["rep0"])
+            tags.append(("create_db", repr(inp)))
             cmds.append(dbside.cmd_update(ex["rest"], cfg)); exp.append(rep); tags.append(("FeatureDB.update", repr(inp)))
         check_outcome(case, ex, res)
         if db is not None and status == "ok":
